@@ -373,6 +373,13 @@ Definition run_c12 (a : list Z) : list Z :=
   | _ => [-99]
   end.
 
+(* C12, any of the 45 formats: [fmt; channels; prec; w; values...] *)
+Definition run_c121 (a : list Z) : list Z :=
+  match a with
+  | f :: ch :: prec :: w :: values => Encode.encode_image_wh f ch prec (Z.to_nat w) values
+  | _ => [-99]
+  end.
+
 Definition run_case (tag : Z) (args : list Z) : list Z :=
   match tag with
   | 20 => run_c20 args
@@ -390,6 +397,7 @@ Definition run_case (tag : Z) (args : list Z) : list Z :=
   | 4 => run_c04 args
   | 5 => run_c05 args
   | 12 => run_c12 args
+  | 121 => run_c121 args
   | 40 => run_c40 args
   | _ => [-98]
   end.
